@@ -1758,13 +1758,15 @@ class Structure(UniqueMixin, metaclass=StructMeta):
 def _init_class_dict(cls):
     attributes_to_include = {
         "_fields",
-        IGNORE_NONE_VALUES,
         DEFAULTS,
     }
     cls_dict = {}
     for k, v in cls.__dict__.items():
         if k in attributes_to_include:
             cls_dict[k] = v
+    # _ignore_none may be inherited from a base class
+    if hasattr(cls, IGNORE_NONE_VALUES):
+        cls_dict[IGNORE_NONE_VALUES] = getattr(cls, IGNORE_NONE_VALUES)
 
     return cls_dict
 
